@@ -128,15 +128,24 @@ func (rt *runtime) tryCatchEvaluate(inner func() Value) (tryValue Value, isExcep
 				caught = excep.eject()
 			}
 			switch caught := caught.(type) {
+			case *Error:
+				isException = true
+				tryValue = objectValue(rt.newErrorObjectError(caught.ottoError))
 			case ottoError:
 				isException = true
 				tryValue = objectValue(rt.newErrorObjectError(caught))
 			case Value:
 				isException = true
 				tryValue = caught
-			default:
+			case string, bool, int, int8, int16, int32, int64, uint, uint8, uint16, uint32, uint64, float32, float64:
+				// A primitive Go value panicked by a native function is thrown as the
+				// corresponding JavaScript primitive.
 				isException = true
 				tryValue = toValue(caught)
+			default:
+				// Not a JavaScript exception (e.g. the panic of an Interrupt function
+				// or a Go runtime error): keep unwinding, as catchPanic does.
+				panic(caught)
 			}
 		}
 	}()
